@@ -310,7 +310,9 @@ func (c comparison) execute(_ *Ctx, params []Value) (Value, error) {
 	}
 }
 
-func comparisonEquals(_ *Ctx, params []Value) (Value, error) {
+func comparisonEquals(_ *Ctx, params []Value) (res Value, err error) {
+	defer recoverUncomparable(equals, &res, &err)
+
 	if len(params) == 2 {
 		return params[0] == params[1], nil
 	}
@@ -328,12 +330,22 @@ func comparisonEquals(_ *Ctx, params []Value) (Value, error) {
 	return true, nil
 }
 
-func comparisonNotEquals(_ *Ctx, params []Value) (Value, error) {
+func comparisonNotEquals(_ *Ctx, params []Value) (res Value, err error) {
+	defer recoverUncomparable(notEquals, &res, &err)
+
 	if len(params) != 2 {
 		return nil, errCnt2(notEquals, params)
 	}
 
 	return params[0] != params[1], nil
+}
+
+// recoverUncomparable turns the runtime panic of comparing two values of
+// the same uncomparable type (e.g. two lists) into an operator error
+func recoverUncomparable(m mode, res *Value, err *error) {
+	if r := recover(); r != nil {
+		*res, *err = nil, OpExecError(modeNames[m], fmt.Errorf("%v", r))
+	}
 }
 
 func comparisonBetween(_ *Ctx, params []Value) (Value, error) {
